@@ -402,6 +402,34 @@ def stripcopy_stylesheet(rng):
     return {"templates": templates, "gvars": [], "keys": [], "strip": strip}
 
 
+def rtfcompare_stylesheet(rng):
+    """Result tree fragments as operands (XSLT 11.1: a fragment behaves like a node-set holding just its root node): a top-level
+    and a local variable with content, compared with node-sets, strings, numbers, booleans and each other by every operator, and
+    used as string / number / boolean.  Meant for a document whose text values look like numbers ('0.5', ' 4 ', '-2', 'abc')."""
+    P_ = lambda *steps, **kw: path(list(steps), **kw)
+    z = {"k": "fin", "neg": False, "m": 0}
+    texts = ["4", "0.50", "-2.0", "abc", "", " 4 ", "0.5", "-2", "10"]
+    def frag(name):
+        t = rng.choice(texts)
+        body = [{"i": "text", "v": cps(t)}] if t else []
+        if rng.random() < 0.3:
+            body = [{"i": "lre", "name": cps("w"), "attrs": [], "body": body}]
+        return {"name": name, "hasSel": False, "sel": NONE, "body": body}
+    ns = lambda: rng.choice([P_(DOS, ch(t_name("b")), abs_=True), P_(DOS, ch(T_TEXT), abs_=True), P_(DOS, at(t_name("x")), abs_=True), P_(ch(T_ANY), ch(T_ANY, num(2)), abs_=True)])
+    other = lambda: rng.choice([ns(), ns(), lit(rng.choice(texts)), num(4), num8(4), fn("true"), fn("false"), var("g"), var("l")])
+    items = []
+    for _ in range(rng.choice([4, 6, 8])):
+        o = rng.choice(["=", "!=", "<", "<=", ">", ">="])
+        f = var(rng.choice(["g", "l"]))
+        e = bin_(o, f, other()) if rng.random() < 0.5 else bin_(o, other(), f)
+        items += [{"i": "value-of", "sel": e}, {"i": "text", "v": cps(",")}]
+    items += [{"i": "value-of", "sel": fn("string-length", var("g"))}, {"i": "text", "v": cps(",")}, {"i": "value-of", "sel": bin_("+", var("l"), num(1))},
+              {"i": "text", "v": cps(",")}, {"i": "value-of", "sel": fn("boolean", var("g"))}, {"i": "text", "v": cps(",")}, {"i": "value-of", "sel": fn("not", var("l"))}]
+    templates = [{"rid": 1, "hasMatch": True, "match": P_(abs_=True), "name": "", "mode": "", "hasPrio": False, "prio": z, "params": [],
+                  "body": [{"i": "lre", "name": cps("out"), "attrs": [], "body": [dict(frag("l"), i="variable")] + items}]}]
+    return {"templates": templates, "gvars": [frag("g")], "keys": [], "strip": []}
+
+
 def imports_stylesheet(rng):
     """The imports family (2.6.2, 5.5, 5.6): modules main(1) imports A(2) then B(3); A imports A1(4).  Template rules with overlapping
     patterns, modes and priorities are spread over the modules; bodies print the rule id, may continue with xsl:apply-imports (never
